@@ -464,6 +464,15 @@ def r1_llsd_binding(ctx):
                f"`{head}` is bound to {target!r} in {rel}: responses carrying injected events with hippolyzer "
                f"value types cannot be formatted by another llsd implementation, the rewrite is aborted")
     ctx.floor("C17.R1", "llsd receivers in the EQ handlers", n, 1)
+    # the rewrite relies on a failed parse raising (the handler's catch-all then passes the body through untouched)
+    px = repo.fn("parse_xml", "hippolyzer/lib/base/llsd.py")
+    swallow = [h for t in walk(px.node) if isinstance(t, ast.Try) for h in t.handlers
+               if not any(isinstance(x, ast.Raise) for x in walk(h))]
+    consts = [r for r in walk(px.node) if isinstance(r, ast.Return) and (r.value is None or isinstance(r.value, ast.Constant))]
+    ctx.ob("C17.R1", "llsd.parse_xml fails closed: no parse error or odd body is turned into a value", not swallow and not consts,
+           ctx.w(px, (swallow or consts or [px.node])[0]),
+           "an EventQueueGet body the parser rejects now looks like undef: the response is rewritten to undef (and cached) "
+           "instead of passing through untouched, the simulator's events in it are lost")
 
 
 def r2(ctx, m: RespModel):
@@ -529,17 +538,33 @@ def r2(ctx, m: RespModel):
 
     # take_injected_events: swap
     tk = Fn(ctx, "EventQueueManager.take_injected_events")
+
+    def elem_value(s_):
+        """Value bound to one target of `a, b = x, y` (else the statement's value)."""
+        t = parent(s_.target)
+        if isinstance(s_.node, ast.Assign) and isinstance(t, (ast.Tuple, ast.List)) and isinstance(s_.node.value, (ast.Tuple, ast.List)) \
+                and len(t.elts) == len(s_.node.value.elts) and t is s_.node.targets[0]:
+            return s_.node.value.elts[[i for i, e in enumerate(t.elts) if e is s_.target][0]]
+        return s_.value
+
+    def tk_origin(e):
+        e = origin(tk.tree, e)
+        if isinstance(e, ast.Name):
+            defs = [s_ for s_ in stores(tk.tree, into_defs=False) if s_.path == e.id and s_.kind == "assign"]
+            if len(defs) == 1 and elem_value(defs[0]) is not None and elem_value(defs[0]) is not defs[0].value:
+                return elem_value(defs[0]), defs[0].node
+        return e, None
     rets = [r for r in walk(tk.tree) if isinstance(r, ast.Return)]
     ctx.ob("C17.R2", "take_injected_events has one return", len(rets) == 1 and rets[0].value is not None, tk.fi.where)
     if len(rets) == 1 and rets[0].value is not None:
-        rv = origin(tk.tree, rets[0].value)
+        rv, swap_stmt = tk_origin(rets[0].value)
         base, copied = strip_copy(rv)
         from_q = self_attr(ap(base)) == Q
         ctx.ob("C17.R2", "take_injected_events returns the queued events", from_q, tk.w(rets[0]),
                f"returned value is {norm(rv)}")
         rebinds = [s for s in stores(tk.tree, into_defs=False) if self_attr(s.path) == Q and s.path.count(".") == 1 and s.kind == "assign"
-                   and ((isinstance(s.value, ast.List) and not s.value.elts) or
-                        (isinstance(s.value, ast.Call) and ap(s.value.func) == "list" and not s.value.args))]
+                   and ((isinstance(elem_value(s), ast.List) and not elem_value(s).elts) or
+                        (isinstance(elem_value(s), ast.Call) and ap(elem_value(s).func) == "list" and not elem_value(s).args))]
         clears = [s for s in stores(tk.tree, into_defs=False) if self_attr(s.path) == Q
                   and s.kind == "mutcall" and s.method == "clear"]
         resets = rebinds + (clears if copied else [])
@@ -552,7 +577,7 @@ def r2(ctx, m: RespModel):
         # the value returned must be read before the reset
         rd = rets[0].value
         read_nodes = tk.nodes(single_def(tk.tree, rd.id)) if isinstance(rd, ast.Name) and single_def(tk.tree, rd.id) is not None \
-            else tk.nodes(rets[0])
+            else tk.nodes(swap_stmt) if swap_stmt is not None else tk.nodes(rets[0])
         w2 = normal_path(tk.cfg, list(rn), lambda n: n in set(read_nodes))
         ctx.ob("C17.R2", "take_injected_events reads the queue before resetting it", w2 is None or not rn, tk.fi.where,
                "the queue is reset first: the returned list is always empty", tk.describe(w2))
@@ -685,7 +710,7 @@ def r3(ctx, m: RespModel):
         ctx.ob("C17.R3", f"{EQM}.clear resets {field} on every normal path", bool(rs) and wit is None, ec.fi.where,
                "state of the torn-down event queue leaks into the region's next queue", ec.describe(wit))
     pr = repo.cls("ProxiedRegion", REG)
-    init = pr.methods.get("__init__")
+    init = repo.lookup_method(pr, "__init__")
     ctx.require(init is not None, "ProxiedRegion.__init__ vanished")
     eq_attrs = {self_attr(s_.path) for s_ in stores(init.node, into_defs=False) if s_.kind == "assign"
                 and isinstance(s_.value, ast.Call) and (ap(s_.value.func) or "").split(".")[-1] == EQM}
@@ -696,6 +721,18 @@ def r3(ctx, m: RespModel):
     cl = [c for c in find_calls(md.tree, "clear", into_defs=False) if isinstance(c.func, ast.Attribute)
           and ap(c.func.value) == f"{md.params[0]}.{eqa}"]
     wit = must_pass(md.cfg, [n for c in cl for n in md.nodes(c)])
+    # clear() also drains the injection queue: only teardown may call it
+    def may_clear(g, depth=2):
+        if g.qual == "ProxiedRegion.mark_dead":
+            return True
+        cs = [h for h, _ in fast_callers_of(repo, g.name) if h != g] if depth else []
+        return bool(cs) and all(may_clear(h, depth - 1) for h in cs)
+    for g, c in fast_callers_of(repo, "clear"):
+        pth = ap(c.func.value) if isinstance(c.func, ast.Attribute) else None
+        if pth and pth.split(".")[-1] == eqa and g.module.rel.startswith("hippolyzer/lib/"):
+            ctx.ob("C17.R3", f"{eqa}.clear() called by {g.qual}", may_clear(g), ctx.w(g, c),
+                   f"{EQM}.clear() throws away the pending injected events together with the replay cache; outside region "
+                   f"teardown (ProxiedRegion.mark_dead) that loses events the proxy promised to deliver")
     ctx.ob("C17.R3", f"ProxiedRegion.mark_dead clears {eqa} on every normal path", bool(cl) and wit is None, md.fi.where,
            "a teardown path leaves the replay cache / injection queue of the dead event queue in place: it is replayed "
            "into (or delivered with) the region's next event queue", md.describe(wit))
